@@ -121,7 +121,12 @@ class JobWorld(World):
         # so instead of every subset we explore every *number* of exits (lowest descriptors first).
         watched = [c for c in self.running() if c['fd'] in fds]
         if watched:
-            k = eng.choose(len(watched) + 1, 'how many children exited')
+            # "none of them yet" is a distinct case only if something else can end this select(): a readable token, an exited child not
+            # yet reaped, or a timeout; otherwise it is the same as "the first one exits" (the forced case below)
+            other = (TOKEN_R in fds and self.P > 0) or (timeout is not None and self.timeouts < self.max_timeouts) or \
+                any(c['state'] == 'exited' and c['fd'] in fds for c in self.children)
+            lo = 0 if other else 1
+            k = lo + eng.choose(len(watched) + 1 - lo, 'how many children exited')
             for c in watched[:k]:
                 self.child_exit(c)
         ready = [c['fd'] for c in self.children if c['state'] == 'exited' and c['fd'] in fds]
